@@ -364,10 +364,22 @@ def smart_eq(x, y, depth=0):
         return eq(x, y)
     if x.eq(y):
         return True
+    if depth == 0:
+        x, y = z3.simplify(x), z3.simplify(y)
+        if x.eq(y):
+            return True
     if z3.is_app_of(x, z3.Z3_OP_ITE):
         return z3.If(x.arg(0), to_z3(smart_eq(x.arg(1), y, depth + 1)), to_z3(smart_eq(x.arg(2), y, depth + 1)))
     if z3.is_app_of(y, z3.Z3_OP_ITE):
         return z3.If(y.arg(0), to_z3(smart_eq(x, y.arg(1), depth + 1)), to_z3(smart_eq(x, y.arg(2), depth + 1)))
+    if z3.is_app(x) and z3.is_app(y) and x.decl().name() in ('SUM_int', 'SUM_real') and x.decl().eq(y.decl()):
+        # sum_congr_range (lean/Lemmas.lean): equal bounds and equal summands on the range
+        a1, lo1, hi1 = x.children()
+        a2, lo2, hi2 = y.children()
+        k = z3.Int('cg!%d' % next(_fresh_ctr))
+        sa = z3.simplify(z3.Select(a1, k))
+        sb = z3.simplify(z3.Select(a2, k))
+        return And(eq(lo1, lo2), eq(hi1, hi2), Implies(And(lo1 <= k, k < hi1), smart_eq(sa, sb, depth + 1)))
     if z3.is_app(x) and z3.is_app(y) and x.decl().name() in CONGRUENT_DECLS and x.decl().eq(y.decl()):
         conj = []
         for a, b in zip(x.children(), y.children()):
